@@ -38,9 +38,21 @@ Theorem C08_found_path_spec : forall es src tgt via avoid p, path_ok es src tgt 
   (forall v, In v via -> In v p) /\ (forall v, In v avoid -> ~ In v p).
 Proof. exact path_ok_spec. Qed.
 Print Assumptions C08_found_path_spec.
-(* the enumeration used to decide "no admissible path exists" only yields real walks (soundness; completeness is partial:
-   it is exercised by comparing error / no error with navis on every query) *)
-Theorem C08_enumerated_paths_valid_partial : forall fuel es cur tgt visited p, In p (simple_paths fuel es cur tgt visited) ->
+(* the enumeration used to decide "no admissible path exists": it only yields real walks (soundness) ... *)
+Theorem C08_enumerated_paths_valid : forall fuel es cur tgt visited p, In p (simple_paths fuel es cur tgt visited) ->
   hd (-1)%Z p = cur /\ last p (-1)%Z = tgt /\ path_valid es p = true.
 Proof. exact simple_paths_valid. Qed.
-Print Assumptions C08_enumerated_paths_valid_partial.
+Print Assumptions C08_enumerated_paths_valid.
+(* ... it yields EVERY simple walk from cur to tgt that fits the fuel (completeness) ... *)
+Theorem C08_enumerated_paths_complete : forall fuel es cur tgt visited p,
+  hd (-1)%Z p = cur -> p <> [] -> last p (-1)%Z = tgt -> path_valid es p = true -> NoDup p ->
+  (forall v, In v p -> ~ In v visited) -> (length p <= fuel)%nat ->
+  In p (simple_paths fuel es cur tgt visited).
+Proof. exact simple_paths_complete. Qed.
+Print Assumptions C08_enumerated_paths_complete.
+(* ... so "an admissible bridging path exists" is decided exactly *)
+Theorem C08_admissible_exists_iff : forall es nodes src tgt via avoid,
+  admissible_exists es nodes src tgt via avoid = true <->
+  exists p, (length p <= S nodes)%nat /\ path_ok es src tgt via avoid p = true.
+Proof. exact admissible_exists_iff. Qed.
+Print Assumptions C08_admissible_exists_iff.
